@@ -18,6 +18,8 @@ package input
 //@ invariant forall k string :: dom(self.Meta, k) ==> self.Meta[k] != nil && allocated(self.Meta[k]) && (self.Meta[k].PtFlag == PtField || self.Meta[k].PtFlag == PtTag)
 //@ invariant forall k string :: dom(self.Fields, k) ==> dom(self.Meta, k) && self.Meta[k].PtFlag == PtField
 //@ invariant forall k string :: dom(self.Tags, k) ==> dom(self.Meta, k) && self.Meta[k].PtFlag == PtTag
+// an index entry of kind tag has type string (reads go through the indexed type)
+//@ invariant forall k string :: dom(self.Meta, k) && self.Meta[k].PtFlag == PtTag ==> self.Meta[k].DType == ast.String
 //@ invariant forall k string :: dom(self.Fields, k) ==> agree(self.Meta[k].DType, self.Fields[k])
 //@ invariant forall j, k string :: dom(self.Meta, j) && dom(self.Meta, k) && j != k ==> self.Meta[j] != self.Meta[k]
 
@@ -136,7 +138,7 @@ package input
 //@ invariant pt.Fields == f && f != nil && pt.Tags == t && t != nil && pt.Meta != nil && fresh(pt.Meta)
 //@ invariant forall k string :: dom(t, k) ==> !dom(f, k)
 //@ invariant forall k string :: dom(f, k) ==> dom(pt.Meta, k) && pt.Meta[k].PtFlag == PtField && agree(pt.Meta[k].DType, f[k])
-//@ invariant forall k string :: dom(pt.Meta, k) ==> pt.Meta[k] != nil && allocated(pt.Meta[k]) && (dom(f, k) || (iterseen(k) && dom(t, k) && pt.Meta[k].PtFlag == PtTag))
+//@ invariant forall k string :: dom(pt.Meta, k) ==> pt.Meta[k] != nil && allocated(pt.Meta[k]) && (dom(f, k) || (iterseen(k) && dom(t, k) && pt.Meta[k].PtFlag == PtTag && pt.Meta[k].DType == ast.String))
 //@ invariant forall k string :: iterseen(k) ==> dom(pt.Meta, k)
 //@ invariant forall j, k string :: dom(pt.Meta, j) && dom(pt.Meta, k) && j != k ==> pt.Meta[j] != pt.Meta[k]
 
@@ -160,3 +162,20 @@ package input
 //@ ensures[C11] (!old(dom(pt.Meta, key)) || old(pt.Meta[key].PtFlag) == PtField) && (dtype == ast.Nil || dtype == ast.Void || dtype == ast.Invalid) ==> result == nil && dom(pt.Fields, key) && pt.Fields[key] == nil && pt.Meta[key].DType == ast.Nil
 //@ ensures[C11] (!old(dom(pt.Meta, key)) || old(pt.Meta[key].PtFlag) == PtField) ==> dom(pt.Fields, key) && !dom(pt.Tags, key)
 
+
+// ---- release discipline of index entries (C10, C15, C16) ----------------------------------------
+// An index entry goes back to its pool exactly when it is removed from the index, and it is the
+// function that removes it which releases it - once.  (An entry released while still installed, or
+// released twice, is handed out again to another key, another point or another goroutine.)
+//@ func (*Point).Delete
+//@ ensures[C10,C15,C16] !old(dom(pt.Meta, key)) ==> ncalls(PutMeta) == 0
+//@ ensures[C10,C15,C16] old(dom(pt.Meta, key)) ==> ncalls(PutMeta) == 1 && callarg(PutMeta, 0, 0) == old(pt.Meta[key])
+//@ func (*Point).Set
+//@ ensures[C10,C15,C16] ncalls(PutMeta) == 0 && ncalls((*Point).Delete) == 0
+//@ func (*Point).SetTag
+//@ ensures[C10,C15,C16] ncalls(PutMeta) == 0 && ncalls((*Point).Delete) == 0
+//@ func (*Point).Mv2Tag
+//@ ensures[C10,C15,C16] ncalls(PutMeta) == 0 && ncalls((*Point).Delete) == 0
+//@ func (*Point).Rename
+//@ ensures[C10,C15,C16] ncalls(PutMeta) == 0
+//@ ensures[C10,C15,C16] ncalls((*Point).Delete) <= 1 && (ncalls((*Point).Delete) == 1 ==> callarg((*Point).Delete, 0, 1) == to)
